@@ -24,6 +24,7 @@ type scen struct {
 	size        int
 	g           *vlib.Rng
 	gTwin       *vlib.Rng // separate stream for the prefix-only-prev-hash deliveries (keeps the other generators' streams as they were)
+	gHdr        *vlib.Rng // separate stream for the header-first choices (same reason)
 	k           *chainkit.Kit
 	blocks      []*rBlock // blocks[0] = genesis
 	byHash      map[[32]byte]*rBlock
@@ -63,7 +64,7 @@ const heavyBits = 0x201fffff
 // (EasyBits), any other block the bits of the last non-minimum block — walking back to the genesis node. That gives
 // branches with different bits (heavier-but-not-taller forks) above a 100-block base.
 func newScen(name string, alloc bool, sub uint64, size int, opts chainkit.Opts, genesisBits uint32) *scen {
-	s := &scen{name: name, alloc: alloc, sub: sub, size: size, g: vlib.NewRng(sub ^ 0xC06), gTwin: vlib.NewRng(sub ^ 0x7717C06), byHash: map[[32]byte]*rBlock{},
+	s := &scen{name: name, alloc: alloc, sub: sub, size: size, g: vlib.NewRng(sub ^ 0xC06), gTwin: vlib.NewRng(sub ^ 0x7717C06), gHdr: vlib.NewRng(sub ^ 0x4EAD0C06), byHash: map[[32]byte]*rBlock{},
 		keys: map[string]*chainkit.Key{}, badTx: map[[32]byte]bool{}, opts: opts, orderMode: -1}
 	if alloc {
 		s.mem = memory.NewAllocator()
@@ -86,7 +87,7 @@ func newScen(name string, alloc bool, sub uint64, size int, opts chainkit.Opts, 
 	if genesisBits != 0 {
 		binary.LittleEndian.PutUint32(k.Ch.BlockTreeRoot.BlockHeader[72:76], genesisBits)
 	}
-	gen := &rBlock{idx: 0, Hash: k.Genesis.Hash, node: k.Ch.BlockTreeRoot, firstSeen: -1, delivered: true, label: "genesis"}
+	gen := &rBlock{idx: 0, Hash: k.Genesis.Hash, node: k.Ch.BlockTreeRoot, firstSeen: -1, linked: -1, delivered: true, label: "genesis"}
 	gen.Bits = k.Ch.BlockTreeRoot.Bits()
 	s.blocks = []*rBlock{gen}
 	s.byHash[gen.Hash] = gen
@@ -173,7 +174,7 @@ func (s *scen) addBlock(parent *rBlock, bo blockOpts) *rBlock {
 	if err = bl.BuildTxList(); err != nil {
 		panic("c06: BuildTxList: " + err.Error())
 	}
-	b := &rBlock{idx: len(s.blocks), Hash: bl.Hash.Hash, Parent: parent, Height: parent.Height + 1, Bits: bl.Bits(), raw: raw, firstSeen: -1, label: bo.label}
+	b := &rBlock{idx: len(s.blocks), Hash: bl.Hash.Hash, Parent: parent, Height: parent.Height + 1, Bits: bl.Bits(), raw: raw, firstSeen: -1, linked: -1, label: bo.label}
 	if b.label == "" {
 		b.label = "plain"
 	}
@@ -530,6 +531,7 @@ func (s *scen) deliver(b *rBlock) string {
 	}
 	s.step++
 	prevTip, prevH := s.k.Tip()
+	moveNesting = 0
 	res := s.k.Submit(b.raw)
 	out := realOutcome(res)
 	if nt, nh := s.k.Tip(); out == "ok" && nt == hex.EncodeToString(b.Hash[:]) && hex.EncodeToString(b.Parent.Hash[:]) != prevTip {
@@ -549,9 +551,13 @@ func (s *scen) deliver(b *rBlock) string {
 		tipIdx = x.idx
 	}
 	s.ops = append(s.ops, fmt.Sprintf("deliver #%d h=%d parent=#%d %s bits=%08x -> %s (tip #%d)", b.idx, b.Height, b.Parent.idx, b.label, b.Bits, out, tipIdx))
-	// what the node now knows (independent of its answer)
-	if b.firstSeen < 0 && (b.Parent.Parent == nil || b.Parent.firstSeen >= 0) {
-		b.firstSeen = s.seq
+	// what the node now knows (independent of its answer): header and data at once — unless the header is known
+	// already (CheckBlock: "already in"; the data of a known header comes through `commit`, see headers.go)
+	if b.linked < 0 && (b.Parent.Parent == nil || b.Parent.linked >= 0) {
+		b.linked = s.seq
+		if b.firstSeen < 0 && (b.Parent.Parent == nil || b.Parent.firstSeen >= 0) {
+			b.firstSeen = s.seq
+		}
 	}
 	s.seq++
 	s.moveFailed = out == "movefailed"
